@@ -69,9 +69,12 @@ def check_quantity(ctx, db, q, case, tag):
     got_u = grammar.parse_unit_string(unit)
     if got_u is None or nz(Counter(got_u)) != nz(want_u) or any(v == 0 for v in got_u.values()):
         ctx.violation("%s:unit-string-does-not-parse-to-the-composing-units" % tag, dict(case, unit=unit, parsed=got_u, expected=nz(want_u)), replay=case)
-    elif unit != render_units(q):
-        # same multiset, but not the table's own notation (order of appearance, positives first, '1/' prefix)
-        ctx.violation("%s:unit-string-not-in-the-table-grammar" % tag, dict(case, unit=unit, expected=render_units(q)), replay=case)
+    else:
+        why = not_table_notation(unit, nz(want_u))
+        if why:
+            # same multiset, but not the table's own notation ('.' between factors, one '/', exponent suffixes >= 2,
+            # '1/' in front of a pure reciprocal); the order of the factors is not prescribed
+            ctx.violation("%s:unit-string-not-in-the-table-grammar" % tag, dict(case, unit=unit, why=why, one_valid_rendering=render_units(q)), replay=case)
     for what, s, want in (("category", cat, want_c), ("quantity_type", qt, want_t), ("unit_name", name, want_n)):
         got = grammar.parse_star_string(s)
         gc = None if got is None else Counter()
@@ -81,6 +84,35 @@ def check_quantity(ctx, db, q, case, tag):
         if got is None or nz(gc) != nz(want) or len(got) != len(nz(gc)) or any(e == 0 for _r, e in got):
             ctx.violation("%s:%s-string-does-not-list-the-factors" % (tag, what), dict(case, string=s, parsed=got, expected=nz(want)), replay=case)
     return strings
+
+
+def not_table_notation(unit, want):
+    """None when the string uses the table's notation for the multiset ``want`` (any order of factors)."""
+    pos = [u for u, e in want.items() if e > 0]
+    neg = [u for u, e in want.items() if e < 0]
+    if not want:
+        return None if unit == "" else "dimensionless quantity with a non-empty unit string"
+    if unit.count("/") != (1 if neg else 0):
+        return "number of '/' is %d" % unit.count("/")
+    num, _, den = unit.partition("/")
+    if not pos and num != "1":
+        return "a pure reciprocal must start with '1/'"
+    if pos and num == "1":
+        return "'1' written in front of numerator factors"
+    for part, names in ((num, pos), (den, neg)):
+        if not names:
+            continue
+        fs = part.split(".")
+        if len(fs) != len(names):
+            return "%d factors written for %d units" % (len(fs), len(names))
+        for f in fs:
+            m = re.match(r"^([A-Za-z%]+)(\d*)$", f)
+            if not m or m.group(1) not in want:
+                return "factor %r is not <symbol><exponent>" % f
+            e = abs(want[m.group(1)])
+            if (m.group(2) or "1") != str(e) or m.group(2) == "1":
+                return "exponent of %r written as %r" % (m.group(1), m.group(2))
+    return None
 
 
 def render_units(q):
